@@ -95,6 +95,7 @@ pub fn run(lines: &[Vec<String>]) {
                 "skipped" => event::Step::Skipped,
                 "failed" => event::Step::Failed(None, None, None, match err.unwrap_or("panic") {
                     "notfound" => event::StepError::NotFound,
+                    "ambiguous" => event::StepError::AmbiguousMatch(cucumber::step::AmbiguousMatchError { possible_matches: vec![] }),
                     "panic" => event::StepError::Panic(info()),
                     e => panic!("err kind {e} not scriptable"),
                 }),
@@ -185,6 +186,12 @@ pub fn run(lines: &[Vec<String>]) {
             let mut w = writer::Tee::new(l.clone(), r.clone());
             for ev in evs.drain(..) {
                 block_on(Writer::<W>::handle_event(&mut w, ev, &cli2));
+            }
+            for x in l.log.lock().unwrap().iter() {
+                println!("LEFT {x}");
+            }
+            for x in r.log.lock().unwrap().iter() {
+                println!("RIGHT {x}");
             }
             println!("RESULT left_events={} right_events={}", l.log.lock().unwrap().len(), r.log.lock().unwrap().len());
             return;
